@@ -73,7 +73,9 @@ PROOF_UNITS = {
             for m in ('removal', 'accum') for t in ('int', 'none')]
            + [u for u in _observer_units('removal') if u[1] == 'HasInteraction']
            + [('contracts.iters', 'InteractionsIter', ('DynGraph',), {'t': t}) for t in ('none', 'int')]
-XX, (cls, f), {'mode': m, 't': t})
+           + [('contracts.iters', 'OutInteractionsIter', ('DynDiGraph',), {'t': t}) for t in ('none', 'int')]
+           + [('contracts.iters', 'InInteractionsIter', ('DynDiGraph',), {'t': t}) for t in ('none', 'int')]
+           + [('contracts.neighbours', 'NeighbourListing', (cls, f), {'mode': m, 't': t})
               for (cls, f) in (('DynGraph', 'neighbors'), ('DynGraph', 'neighbors_iter'), ('DynDiGraph', 'successors_iter'), ('DynDiGraph', 'predecessors_iter'),
                                ('DynDiGraph', 'successors'), ('DynDiGraph', 'predecessors'))
               for m in ('removal', 'accum') for t in ('int', 'none')]
